@@ -74,7 +74,127 @@ PROPS = {
              "min_nontrivial": {Q: 1000, T: 50000}},
         ],
     },
+
+    "C05": {
+        "level": "exploration",
+        "technique": "runtime monitor: history-vs-fresh-app differential on the probe's full observation vector over keep-alive connections with observed context reuse; id-uniqueness oracle under concurrent connections (race build)",
+        "level_text": "Scripted keep-alive connections (1-12 history requests: params, locals, view binds, redirects with flash messages and old input, valid/truncated/partial/garbage flash cookies, failing binds, errors, 404/405, malformed requests) are served through fasthttp's ServeConn with one P so that the pooled context is observably reused; the probe's observation vector and raw response must equal those of the same probe on a fresh app. A race build interleaves 8 connections and checks that every observed value carries the current request's id, with the race detector on.",
+        "level_note": TRUSTED + "; only probes that really ran on a previously used context count as non-trivial; state an application shares on purpose is not part of the vector.",
+        "rule": "case = (app constructor, history of requests, probe); non-trivial = probe ran on a context object already used by the history (pointer logged); distinct by case id",
+        "subs": [
+            {"engine": "ctxiso.isolation", "mode": "plain", "gomaxprocs": 1, "shards": {Q: 16, T: 16},
+             "min_nontrivial": {Q: 1500, T: 40000}},
+            {"engine": "ctxiso.isolation.race", "mode": "race", "shards": {Q: 4, T: 16}, "reps": {Q: 1, T: 3},
+             "min_nontrivial": {Q: 2, T: 2}},
+        ],
+    },
+    "C06": {
+        "level": "exploration",
+        "technique": "runtime monitor: value-stability oracle (live reference vs clone after N further requests on the same connection) with a positive control (Immutable off must change)",
+        "level_text": "With Immutable on, a capture handler calls every string/byte accessor and binder and keeps the live references; after 1/3/10 further requests on the same keep-alive connection (one P, same context and buffers) each reference must still equal its clone. The identical run with Immutable off must show the reference changing, otherwise the pair is not counted.",
+        "level_note": TRUSTED + "; reuse of the connection buffers is established per (accessor, request) by the positive control, not assumed.",
+        "rule": "case = (request with every component populated, N follow-up requests); non-trivial = (accessor, request) pairs whose positive control changed; distinct by (case, accessor)",
+        "subs": [
+            {"engine": "ctxiso.immutable", "mode": "plain", "gomaxprocs": 1, "shards": {Q: 16, T: 16},
+             "min_nontrivial": {Q: 10000, T: 200000}},
+        ],
+    },
+    "C08": {
+        "level": "exploration",
+        "technique": "runtime monitor: recording error handlers with unique ids, rule oracle on the mount-tree spec, 64-512 repeated evaluations on the same and on freshly built apps (map-order nondeterminism)",
+        "level_text": "Generated mount trees (sibling prefixes that are string prefixes of each other, nesting <=3, apps with/without/with failing error handlers) get errors raised at scripted chain positions; every request is evaluated 64 (thorough 512) times on the same app and on fresh builds; exactly one handler must run, the one the segment-boundary/innermost rule selects, every time; default handler status and failing-handler 500 are checked. A race build runs concurrent requests through one tree.",
+        "level_note": TRUSTED + "; for case-variant paths under case-insensitive routing both readings of 'contains' are accepted (not a mix).",
+        "rule": "case = (mount tree, request, raise position); non-trivial = >=2 candidate prefixes are string prefixes of the path; distinct by (tree, request)",
+        "subs": [
+            {"engine": "errs", "mode": "plain", "shards": {Q: 16, T: 16}, "min_nontrivial": {Q: 2000, T: 100000},
+             "timeout": {Q: 600, T: 3000}},
+            {"engine": "errs.race", "mode": "race", "shards": {Q: 4, T: 16}, "min_nontrivial": {Q: 100, T: 1000},
+             "timeout": {Q: 600, T: 3000}},
+        ],
+    },
+    "C09": {
+        "level": "exploration",
+        "technique": "runtime monitor: composition-law oracle over observed solo acceptability (real Accepts* called per range), header built from the generator's own structure; race build for the pooled parameter maps",
+        "level_text": "Accept-style headers from the RFC 9110 grammar (wildcards, q-values with 0-3 decimals, OWS, quoted parameters, duplicates, ties) and offer lists are given to Accepts/AcceptsCharsets/AcceptsEncodings/AcceptsLanguages/Format; the result must be the first offer acceptable to the most preferred non-zero range (q, specificity, #params, position), acceptability of one range for one offer being observed on the real function; literal clauses (result in offers, q=0 never selects, range parameters present in the offer, absent header selects the first offer) are checked independently; arbitrary bytes for totality.",
+        "level_note": TRUSTED + "; the weight is always the last parameter of a range; language-tag specificity is only '*' vs non-'*'.",
+        "rule": "case = (header, offers, function); non-trivial = >=2 ranges that accept different offers; distinct by (header, offers)",
+        "subs": [
+            {"engine": "nego", "mode": "plain", "shards": {Q: 16, T: 16}, "min_nontrivial": {Q: 20000, T: 500000},
+             "timeout": {Q: 600, T: 3400}},
+            {"engine": "nego.race", "mode": "race", "shards": {Q: 4, T: 16}, "tiers": [Q, T],
+             "min_nontrivial": {Q: 100, T: 1000}, "timeout": {Q: 600, T: 3400}},
+        ],
+    },
+    "C10": {
+        "level": "exploration",
+        "technique": "runtime monitor: paired-request non-interference oracle (twin with/without forwarding headers) with a net/netip trust reference on the parsed configuration",
+        "level_text": "For generated proxy configurations (listed addresses in any spelling, CIDRs, loopback/private/link-local classes) and peers (v4, v6, mapped, zoned) two requests that differ only in forwarding headers are driven with a chosen RemoteAddr; for an untrusted peer all of IP/Host/Hostname/Scheme/BaseURL/Secure/Subdomains must be equal and connection-derived; for a trusted peer the documented forwarded values are asserted in the unambiguous cases; Secure iff Scheme==https and (validation on) IP() is a valid address, always.",
+        "level_note": TRUSTED + "; ambiguous trusted cases (conflicting scheme headers, duplicate header instances, whitespace-damaged lists) are counted, not asserted.",
+        "rule": "case = (proxy config, peer, forwarding header values, TLS flag); non-trivial = forwarding header present and peer untrusted, or trusted-unambiguous; distinct by (config, peer, headers)",
+        "subs": [
+            {"engine": "proxy", "mode": "plain", "shards": {Q: 16, T: 16}, "min_nontrivial": {Q: 30000, T: 1000000}},
+        ],
+    },
+    "C11": {
+        "level": "exploration",
+        "technique": "runtime monitor: client->server->Bind round-trip equality over generated struct types and values (in-memory listener), totality on hostile input; race build on the binder/decoder pools",
+        "level_text": "Values of 192 generated struct types (strings, all integer/float widths, bools and slices of them; nested for JSON/XML/CBOR) are sent by the bundled client as query, form, multipart, header, cookie, JSON, XML or CBOR and bound on the server from the same source inside the handler; DeepEqual must hold, also with EnableSplittingOnParsers for comma-free values; hostile raw inputs into every binder must not panic and must yield 400 under automatic error handling.",
+        "level_note": TRUSTED + "; the value domain per source is what HTTP can carry there (stated in the evidence notes); field names with bracket/dot path notation are outside the statement and only counted.",
+        "rule": "case = (struct type, value, source, splitting, binder entry point); non-trivial = value with a reserved/escaped character or a slice of length != 1; distinct by (type, source, value)",
+        "subs": [
+            {"engine": "bind", "mode": "plain", "shards": {Q: 16, T: 16}, "min_nontrivial": {Q: 8000, T: 500000},
+             "timeout": {Q: 600, T: 3000}},
+            {"engine": "bind.race", "mode": "race", "shards": {Q: 4, T: 16}, "min_nontrivial": {Q: 2, T: 2},
+             "timeout": {Q: 600, T: 3400}},
+        ],
+    },
+    "C15": {
+        "level": "exploration",
+        "technique": "runtime monitor under virtual time: session state-machine specification checked after every operation/request (handler view, emitted id, storage contents); scheduler + porcupine for two concurrent requests of one client; race build with 16 clients",
+        "level_text": "Histories of get/set/delete/save/destroy/regenerate/reset/timeout operations by up to 4 clients (honest, forging, replaying) through the middleware and the store API run on the Go runtime's fake clock, with time advanced to just before/at/after idle and absolute deadlines; after every step the data, id and freshness seen by the handler, the id emitted and the storage contents must equal the specification; ids the server did not issue are never adopted. Two concurrent requests of one client are interleaved exhaustively at storage boundaries and checked for linearizability (last save wins).",
+        "level_note": TRUSTED + "; Go runtime faketime clock; porcupine; memory-storage TTLs are whole seconds, so a +-1 s window is accepted there (exact with the instrumented storage).",
+        "rule": "case = (config, clients, history of 1-25 requests with 0-6 ops each, time advances); non-trivial = history with destroy/regenerate/reset/expiry followed by a use of the old id; distinct by case id",
+        "subs": [
+            {"engine": "session", "mode": "vt", "shards": {Q: 16, T: 16}, "min_nontrivial": {Q: 1500, T: 100000},
+             "timeout": {Q: 600, T: 3000}},
+            {"engine": "session.race", "mode": "race", "shards": {Q: 2, T: 8}, "min_nontrivial": {Q: 2, T: 2},
+             "timeout": {Q: 600, T: 3000}},
+        ],
+    },
+    "C16": {
+        "level": "fault_enumeration",
+        "technique": "runtime monitor under virtual time: token-lifecycle specification + independent origin rule on parsed origins decide 'reached' for every request; storage faults enumerated one call at a time",
+        "level_text": "Histories by 1-3 clients (fetch, own/foreign/forged/stale token, expiry, single-use reuse, DeleteToken, cookie mismatch) over all extractors and the storage/session backends run on the fake clock; the protected handler may be entered iff the specification says so (issued, live, matching cookie, origin rule). A large Origin/Referer/Host/scheme matrix (look-alikes, wildcard sub-domains, null, ports, http/https) is judged by an origin rule written on parsed origins. Every storage call of short histories is failed once (get/set/delete x call index): a failed lookup or consume must reject.",
+        "level_note": TRUSTED + "; Go runtime faketime clock; expiry judged only >=2 s away from the deadline; 'Origin: null' is read as absent.",
+        "rule": "case = history or origin probe or (history, fault plan); non-trivial = unsafe request with a token that was live at some point, or with Origin/Referer present; distinct by case id and request index; fault plans = (call kind, call index) over fixed scripts and random short histories",
+        "subs": [
+            {"engine": "csrf", "mode": "vt", "shards": {Q: 16, T: 16}, "min_nontrivial": {Q: 20000, T: 1000000},
+             "require_stats": {"fault_plans": 500}, "timeout": {Q: 600, T: 3400}},
+        ],
+    },
+    "C19": {
+        "level": "exploration",
+        "technique": "runtime monitor: independent CORS policy evaluator on serialized origins built from the generator's structure; expected header set per request class compared with the real response",
+        "level_text": "Generated configurations (exact and wildcard-subdomain origin lists, allow function, credentials, private network, max age, methods/headers) and requests (no Origin, simple, OPTIONS without ACRM, preflight; origins with case variants, ports, sub-sub-domains, look-alike and suffix-sharing hosts, null, IPv6) are driven through the middleware; ACAO/ACAC/Vary/ACAM/ACAH/ACMA/ACEH/private-network headers, status and handler entry must equal what the policy evaluator derives; invalid configurations must panic at construction.",
+        "level_note": TRUSTED + "; origins outside the serialized-origin syntax are only used for the never-'*'-with-credentials and no-panic clauses.",
+        "rule": "case = (config, request); non-trivial = request with an Origin and a non-allow-all configuration; distinct by (config, request)",
+        "subs": [
+            {"engine": "cors", "mode": "plain", "shards": {Q: 16, T: 16}, "min_nontrivial": {Q: 50000, T: 2000000},
+             "timeout": {Q: 600, T: 3000}},
+        ],
+    },
+    "C20": {
+        "level": "exploration",
+        "technique": "runtime monitor: issue/replay/tamper scripts; strict Set-Cookie parsing of wire bytes; exhaustive single-byte substitution/truncation/extension of issued ciphertexts judged by a base64-identity rule",
+        "level_text": "Behind the middleware handlers set cookies with unique plaintexts (binary, empty, long): the wire Set-Cookie must not contain the plaintext and must differ between two issues; replayed cookies must reach the handler with the original value; every single-byte substitution at every position (x3 values quick, x255 thorough), truncation, extension and other-key ciphertext must reach the handler as empty unless it decodes to the identical ciphertext bytes; excepted names pass unchanged; several cookies per request incl. duplicates are checked through Cookies() and VisitAllCookie.",
+        "level_note": TRUSTED + "; a ciphertext issued for name A and presented under name B is not treated as forged (nothing in the statement binds value to name).",
+        "rule": "case = issue/replay script, tamper base x mutation, or multi-cookie request; non-trivial = tamper cases and requests with >=2 cookies; distinct by (base, mutation) / request",
+        "subs": [
+            {"engine": "encc", "mode": "plain", "shards": {Q: 16, T: 16}, "min_nontrivial": {Q: 2000, T: 50000},
+             "timeout": {Q: 600, T: 3000}},
+        ],
+    },
 }
 
-HOOK_COMMITS = []
+HOOK_COMMITS = ["d290bd8", "d29431c"]
 NOT_APPLICABLE = {}
